@@ -19,7 +19,10 @@ PROP = dict(
          'PreserveSolved on/off), PN-squared, DFPN (tables of 1..65536 entries, attacker unset / White / Black). Every run is judged by '
          'the oracle; the runs without PN-squared whose cost is within the model budget are also replayed by the extracted Coq model. '
          'non-trivial = the solver made at least one search step; distinct = distinct (root, configuration) strings',
-    assumptions=['no 64-bit hash collision among the positions of one DFPN search',
+    assumptions=['PN with MaxDepth = d: the depth limit counts against the attacker (DESIGN 5.6) - `disproven` then claims "no win within d plies" '
+                 'and is judged against the exact least winning bound of the retrograde solution (a win deeper than d is no failure); `proven` '
+                 'always has to be a real forced win',
+                 'no 64-bit hash collision among the positions of one DFPN search',
                  'PN-squared is judged by the oracle only (the model has no PN-squared)',
                  'a returned move of type 0 is "no move"; with DFPN attacker != side to move the returned move is a move of the defender'],
 )
